@@ -100,6 +100,21 @@ def inputs(tier="quick"):
         dial.append(("c11m", head + " s.t (a int, b varchar(10), dt date);"))
     dial.append(("c11m", "CREATE TABLE s.t (a int, b varchar(10), dt date);\nCREATE TABLE s.t2 CLONE s.t;"))
     dial.append(("c11m", "CREATE TABLE s.t (a int ENCODE zstd, b varchar(10), dt date) SORTKEY (a) ENCODE auto;"))
+    # wave 7: scale scripts of the other drivers (always kept): tables whose names share a long prefix with ALTER / INDEX statements aimed at
+    # each of them, long ALTER histories, tables created with a three-part name, long identifiers, a 40-column table, 24 constraints of every kind
+    for L in (20, 62, 63, 64, 70, 130, 260):
+        for part in ("table", "schema", "bare"):
+            dial.append(("c04s", c04.scale_script({"scale": True, "part": part, "L": L, "ops": ["add", "uq", "idx", "drop"], "N": 3})[0]))
+    for (L, N, M, off) in ((12, 3, 3, 0), (30, 12, 12, 4), (40, 30, 4, 2)):
+        dial.append(("c04s", c04.scale_script({"scale": True, "L": L, "N": N, "M": M, "off": off})[0]))
+    p3 = "\n".join(c04.TABLES[x][2] for x in ("acme.sales.o", "acme.archive.o", "staging.o")) + "\n"
+    for k in ("add", "uq1", "idx", "fk", "rename", "def"):
+        dial.append(("c04p", p3 + c04.stmt([k, "acme.sales.o", "asis", "asis", "asis"])))
+    for n in (64, 130):
+        dial.append(("c06s", c06.render_id({"kind": "id", "assign": {q: "len:%d" % n for q in c06.POS}, "nn": False})[0]))
+        dial.append(("c06s", c06.render_id({"kind": "id", "assign": {q: "dqlen:%d" % n for q in c06.POS}, "nn": False})[0]))
+    dial.append(("c01s", c01.build({"fam": "S", "dim": "cols", "n": 40, "off": 3, "layout": "multi"})[0]))
+    dial.append(("c02s", c02.build({"fam": "S", "kind": "mix", "n": 40, "m": 24})))
     if tier != "thorough":
         # quick tier: a fixed slice (every 2nd) keeps the product with 15 modes x 2 x 2 affordable
         out = out[::2]
